@@ -15,7 +15,7 @@ RULE = ("1-16 (thorough: 1-64) goroutines, each 3-10 uses of validate.Pattern / 
 
 
 def correspond(ctx, C):
-    n = 150 if ctx.tier == "quick" else 6000
+    n = 400 if ctx.tier == "quick" else 8000
     if ctx.search:
         n *= 3
     try:
@@ -55,6 +55,10 @@ def correspond(ctx, C):
                         t, i, progs[t][i]["pattern"], progs[t][i]["str"], y, x)}))
         if go["wrongEntries"]:
             viol.append((case, {"what": "cache holds an entry that does not belong to its key", "entries": go["wrongEntries"][:5]}))
+        for a in go.get("afterwards") or []:
+            viol.append((case, {"what": "after the goroutines have finished, pattern %r on %r alone: library says %s, Go's regexp says match=%s "
+                                        "(a pattern answers with another pattern's expression)" % (a[0], a[1], a[2], a[3])}))
+            break
         if go["lostEntries"]:
             viol.append((case, {"what": "a valid pattern used in this case is missing from the cache afterwards", "patterns": go["lostEntries"][:5]}))
     cov = {"evaluations": len(rows), "distinct_nontrivial": len(distinct), "rule": RULE, "samples": samples,
